@@ -108,3 +108,25 @@ Definition check_parts (c : cfg) (gamma : Q) (n : nat) (eps : Q) (m : mode) (ss1
   (support_ok c sup, q_ok c ss1 q1, q_ok c ssn qn,
    proj_ok c gamma ss1 p1, proj_ok c (Qpower gamma (Z.of_nat n)) ssn pn,
    prio_ok c gamma n eps m ss1 ssn prio).
+
+(* ---------- which arms of the model a case exercises (evidence histogram; computed here, in Coq) ----------
+   flags: t_z clamped low / clamped high / unclamped ; b integral = 0 / integral interior / integral = N-1 / fractional *)
+Definition atom_flags (c : cfg) (g : Q) (s : sample) (j : nat) : list bool :=
+  let x := s_rew s + (1 - s_done s) * g * zat c j in
+  let lo := negb (Qle_bool (vmin c) x) in
+  let hi := negb (Qle_bool x (vmax c)) in
+  let b := bfrac c (tz c (s_rew s) (s_done s) g (zat c j)) in
+  let integral := Qeq_bool b (inject_Z (Qfloor b)) in
+  let is0 := Qeq_bool b 0 in
+  let isN := Qeq_bool b (inject_Z (nm1 c)) in
+  [lo; hi; negb lo && negb hi; integral && is0; integral && negb is0 && negb isN; integral && negb is0 && isN; negb integral].
+
+Fixpoint orl (a b : list bool) : list bool :=
+  match a, b with x :: a', y :: b' => (x || y) :: orl a' b' | _, _ => [] end.
+Definition no_flags : list bool := [false; false; false; false; false; false; false].
+
+Definition branch_hits (c : cfg) (g : Q) (ss : list sample) : list bool :=
+  fold_left (fun acc s => fold_left (fun acc' j => orl acc' (atom_flags c g s j)) (seq 0 (natoms c)) acc) ss no_flags.
+
+Definition branches_ok (c : cfg) (gamma : Q) (n : nat) (ss1 ssn : list sample) (expected : list bool) : bool :=
+  forall2b Bool.eqb (orl (branch_hits c gamma ss1) (branch_hits c (Qpower gamma (Z.of_nat n)) ssn)) expected.
